@@ -2512,11 +2512,13 @@ resize_receive_buffer (PseudoTcpSocket *self, guint32 new_size)
   new_size <<= scale_factor;
   result = pseudo_tcp_fifo_set_capacity (&priv->rbuf, new_size);
 
-  // Make sure the new buffer is large enough to contain data in the old
-  // buffer. This should always be true because this method is called either
-  // before connection is established or when peers are exchanging connect
-  // messages.
-  g_assert (result);
+  // The new buffer must be large enough to contain the data in the old
+  // buffer. That holds when this method is called before the connection is
+  // established or while the peers exchange their connect messages, but not
+  // for a connect message that is late, duplicated or forged: keep the
+  // buffer as it is then.
+  if (!result)
+    return;
   priv->rbuf_len = new_size;
   priv->rwnd_scale = scale_factor;
   priv->ssthresh = new_size;
